@@ -58,16 +58,37 @@ def iban_new(a):
     return {"val": C(str(o))}
 
 
+def _ask(fn):
+    try:
+        return ("ok", fn() is True)
+    except Exception as e:  # noqa: BLE001
+        return ("exc", type(e).__name__)
+
+
+def _asked_again(o, first, fn, again=3):
+    """The same OBJECT asked the same question again (objects never change): same answer?"""
+    return all(_ask(fn) == first for _ in range(again)) and _ask(lambda: o.is_valid)[0] == "ok"
+
+
+def _answer_of(o, fn):
+    """Outcome of fn() on object o, with the note whether asking again gives the same outcome."""
+    try:
+        r = fn()
+    except Exception as e:  # noqa: BLE001
+        e.verif_again = _asked_again(o, ("exc", type(e).__name__), fn)
+        raise
+    return {"ret": r is True, "rett": type(r).__name__, "val": C(str(o)),
+            "again": _asked_again(o, ("ok", r is True), fn)}
+
+
 def iban_validate(a):
     o = IBAN(T(a["t"]), allow_invalid=True)
-    r = o.validate(a.get("vb", False))
-    return {"ret": r is True, "rett": type(r).__name__, "val": C(str(o))}
+    return _answer_of(o, lambda: o.validate(a.get("vb", False)))
 
 
 def iban_is_valid(a):
     o = IBAN(T(a["t"]), allow_invalid=True)
-    r = o.is_valid
-    return {"ret": r is True, "rett": type(r).__name__, "val": C(str(o))}
+    return _answer_of(o, lambda: o.is_valid)
 
 
 def bic_new(a):
@@ -77,14 +98,12 @@ def bic_new(a):
 
 def bic_validate(a):
     o = BIC(T(a["t"]), allow_invalid=True)
-    r = o.validate(a.get("strict", False))
-    return {"ret": r is True, "rett": type(r).__name__, "val": C(str(o))}
+    return _answer_of(o, lambda: o.validate(a.get("strict", False)))
 
 
 def bic_is_valid(a):
     o = BIC(T(a["t"]), allow_invalid=True)
-    r = o.is_valid
-    return {"ret": r is True, "rett": type(r).__name__, "val": C(str(o))}
+    return _answer_of(o, lambda: o.is_valid)
 
 
 def iban_fields(o):
@@ -202,8 +221,11 @@ def run(op):
         out["k"] = "ok"
         return out
     except Exception as e:  # noqa: BLE001
-        return {"k": "exc", "cls": type(e).__name__, "lib": isinstance(e, exc_mod.SchwiftyException),
-                "msg": str(e)[:120]}
+        out = {"k": "exc", "cls": type(e).__name__, "lib": isinstance(e, exc_mod.SchwiftyException),
+               "msg": str(e)[:120]}
+        if hasattr(e, "verif_again"):
+            out["again"] = e.verif_again
+        return out
 
 
 def main():
